@@ -225,7 +225,7 @@ class Stats:
         miss = need - self.kinds
         if miss:
             raise vlib.MachineryError("vacuity: validators never explored: %s" % sorted(miss))
-        if self.places != {"flat", "nested", "arr", "map", "rootarr"} or not {0, 1, 2, 3} <= self.caps:
+        if self.places != {"flat", "nested", "arr", "map", "rootarr", "attr"} or ("wstr", "wstr", "skip") not in self.types or not {0, 1, 2, 3} <= self.caps:
             raise vlib.MachineryError("vacuity: placements %s / caps %s" % (self.places, self.caps))
         if set(self.archs) != set(ARCH_ORDER) or min(self.archs.values()) < 100:
             raise vlib.MachineryError("vacuity: archives %s" % self.archs)
@@ -255,12 +255,16 @@ def plan(tier):
             ("rules3-flat", consts("rules", 3, 1, '{"flat"}', "{0, 1}", SCALARS, "small", '{"skip"}')),
             ("phone-email-flat", consts("rules", 2, 1, '{"flat"}', "{0}", '{"phone", "email"}', "small", '{"skip"}')),
             ("phone-email-rootarr", consts("rules", 1, 1, '{"rootarr"}', "{0}", '{"phone", "email"}', "small", '{"skip"}')),
+            ("wide-strings", consts("rules", 2, 1, '{"flat", "rootarr"}', "{0}", '{"wide"}', "small", '{"skip"}')),
+            ("xml-attributes", consts("rules", 2, 1, '{"attr"}', "{0}", '{"int", "str"}', "small", '{"skip"}')),
             ("fields3-small", consts("fields", 3, 3, ALL_PLACES, "{0, 1, 2, 3}", "{}", "small", '{"skip"}')),
             ("fields2-throw", consts("fields", 3, 2, '{"flat", "arr"}', "{0, 1, 2}", "{}", "small", '{"throw"}')),
         ]
     p = []
     for place in ("flat", "nested", "arr", "map", "rootarr"):
         p.append(("rules3-%s" % place, consts("rules", 3, 1, '{"%s"}' % place, "{0, 1}", ALL_TYPES, "small", both)))
+    p.append(("wide-strings", consts("rules", 3, 1, ALL_PLACES, "{0, 1}", '{"wide"}', "small", both)))
+    p.append(("xml-attributes", consts("rules", 3, 1, '{"attr"}', "{0, 1}", '{"int", "str", "phone", "email"}', "small", both)))
     p.append(("phone-email", consts("rules", 2, 1, ALL_PLACES, "{0, 1}", '{"phone", "email"}', "small", both)))
     for place in ("flat", "nested", "arr", "map", "rootarr"):
         p.append(("fields3-large-%s" % place, consts("fields", 3, 3, '{"%s"}' % place, "{0, 1, 2, 3, 4}", "{}", "large", '{"skip"}')))
@@ -284,6 +288,8 @@ def run_check(tier):
         "field types: int, string, optional<int>, vector<int>, vector<string>, map<string,int>, nested object; MismatchedTypesPolicy Skip and "
         "ThrowError (a mismatched value ends the load with MismatchedTypes; null and absent are 'not loaded' under both)",
         "XML + ThrowError + null container/object: not expressible (XML has no null); CSV: scalar fields only",
+        "XML attributes (AttributeValue): int and string fields, present or absent; std::u16string fields with Email / PhoneNumber on documented "
+        "ASCII examples and on the same examples with one character replaced by c+0x100 / c+0x400 (invalid: no SMTPUTF8 / invalid character)",
         "values of failing fields, of fields after an early end (cap reached) and of containers left partly loaded by an early end are not prescribed",
         "XML, cap > 0, two array elements, cap not reached inside the first element: not prescribed (XML paths carry no position)",
     ]
